@@ -552,15 +552,15 @@ theorem find_image {α} (pl : Placed α) (f : Nat) (h : AbsentAt pl f) (hs : pl.
 def Uniform {α} (pl : Placed α) (n : Nat) : Prop :=
   (∀ f, f < n → ∃ a, pl.perFrame[f]? = some (some a)) ∨ (∀ f, f < n → AbsentAt pl f)
 
-theorem find_stable {α} (pl : Placed α) (n f : Nat) (hu : Uniform pl n) (h0 : 0 < n) (hf : f < n)
-    (hsh : ∀ a, pl.find 0 ≠ some (a, false)) : pl.find f = pl.find 0 := by
+theorem find_stable {α} (pl : Placed α) (n f f0 : Nat) (hu : Uniform pl n) (h0 : f0 < n) (hf : f < n)
+    (hsh : ∀ a, pl.find f0 ≠ some (a, false)) : pl.find f = pl.find f0 := by
   rcases hu with hu | hu
-  · obtain ⟨a, ha⟩ := hu 0 h0
-    exact absurd (find_per_frame pl 0 a ha) (hsh a)
+  · obtain ⟨a, ha⟩ := hu f0 h0
+    exact absurd (find_per_frame pl f0 a ha) (hsh a)
   · have e : ∀ g, g < n → pl.find g = firstHit [(pl.shared, true), (pl.image, true)] := by
       intro g hg
       rcases hu g hg with h | h <;> simp [Placed.find, Placed.candidates, h, firstHit]
-    rw [e f hf, e 0 h0]
+    rw [e f hf, e f0 h0]
 
 theorem find_shared_flag {α} (pl : Placed α) (f : Nat) (a : α) (sh : Bool) (h : pl.find f = some (a, sh)) :
     sh = false ↔ ∃ b, pl.perFrame[f]? = some (some b) := by
@@ -576,14 +576,14 @@ theorem find_shared_flag {α} (pl : Placed α) (f : Nat) (a : α) (sh : Bool) (h
     | none =>
       cases hs : pl.shared <;> cases hi : pl.image <;> simp [hs, hi, firstHit] at h <;> simp [← h.2]
 
-theorem opt_find_stable {α} (pl : Placed α) (use : Bool) (n f : Nat) (hu : Uniform pl n) (h0 : 0 < n) (hf : f < n)
-    (hflag : (match (if use then pl.find 0 else none) with | some (_, sh) => sh | none => true) = true) :
-    (if use then pl.find f else none) = (if use then pl.find 0 else none) := by
+theorem opt_find_stable {α} (pl : Placed α) (use : Bool) (n f f0 : Nat) (hu : Uniform pl n) (h0 : f0 < n) (hf : f < n)
+    (hflag : (match (if use then pl.find f0 else none) with | some (_, sh) => sh | none => true) = true) :
+    (if use then pl.find f else none) = (if use then pl.find f0 else none) := by
   cases use with
   | false => rfl
   | true =>
     simp only [↓reduceIte] at hflag ⊢
-    apply find_stable pl n f hu h0 hf
+    apply find_stable pl n f f0 hu h0 hf
     intro a ha
     rw [ha] at hflag
     simp at hflag
